@@ -1,1 +1,114 @@
-//! Hooks for property C24.
+//! Hooks for property C24: the price validator, feed parsing, `SmallPrices::from_price` and
+//! the oracle's clear / range bookkeeping.
+use anchor_lang::prelude::*;
+use gmsol_utils::{price::Decimal, Price};
+
+use crate::states::{
+    oracle::{
+        price_map::SmallPrices, verif_hooks_c24 as h, Oracle, PriceFeed, PriceFeedPrice,
+        PriceProviderKind, PriceValidator,
+    },
+    TokenConfig,
+};
+
+pub type Parsed = h::Parsed;
+
+pub fn parse_from_feed_account<'info>(
+    clock: &Clock,
+    token_config: &TokenConfig,
+    account: &'info AccountInfo<'info>,
+    allow_closed: bool,
+) -> Result<Parsed> {
+    h::parse_from_feed_account(clock, token_config, account, allow_closed)
+}
+
+pub fn validator_clock(v: &PriceValidator) -> &Clock {
+    h::validator_clock(v)
+}
+
+pub fn validate_one(
+    v: &mut PriceValidator,
+    token_config: &TokenConfig,
+    provider: &PriceProviderKind,
+    oracle_ts: i64,
+    oracle_slot: u64,
+    price: &Price,
+    ref_price: Option<&Decimal>,
+) -> Result<()> {
+    h::validate_one(
+        v,
+        token_config,
+        provider,
+        oracle_ts,
+        oracle_slot,
+        price,
+        ref_price,
+    )
+}
+
+pub fn merge_range(
+    v: &mut PriceValidator,
+    min_oracle_slot: Option<u64>,
+    min_oracle_ts: i64,
+    max_oracle_ts: i64,
+) {
+    h::merge_range(v, min_oracle_slot, min_oracle_ts, max_oracle_ts)
+}
+
+pub fn finish(v: PriceValidator) -> Result<Option<(u64, i64, i64)>> {
+    h::finish(v)
+}
+
+pub fn update_oracle_ts_and_slot(oracle: &mut Oracle, v: PriceValidator) -> Result<()> {
+    h::update_oracle_ts_and_slot(oracle, v)
+}
+
+pub fn small_prices_from_price(
+    price: &Price,
+    is_synthetic: bool,
+    is_open: bool,
+) -> Result<SmallPrices> {
+    SmallPrices::from_price(price, is_synthetic, is_open)
+}
+
+pub fn primary_set(
+    oracle: &mut Oracle,
+    token: &Pubkey,
+    price: Price,
+    is_synthetic: bool,
+    is_open: bool,
+) -> Result<()> {
+    h::primary_set(oracle, token, price, is_synthetic, is_open)
+}
+
+pub fn primary_len(oracle: &Oracle) -> usize {
+    h::primary_len(oracle)
+}
+
+pub fn oracle_init(oracle: &mut Oracle, store: Pubkey, authority: Pubkey) {
+    oracle.init(store, authority)
+}
+
+pub fn oracle_clear_all_prices(oracle: &mut Oracle) {
+    oracle.clear_all_prices()
+}
+
+pub fn price_feed_init(
+    feed: &mut PriceFeed,
+    provider: PriceProviderKind,
+    store: &Pubkey,
+    authority: &Pubkey,
+    token: &Pubkey,
+    feed_id: &Pubkey,
+) -> Result<()> {
+    feed.init(0, 0, provider, store, authority, token, feed_id)
+}
+
+pub fn price_feed_update(
+    feed: &mut PriceFeed,
+    price: &PriceFeedPrice,
+    max_future_excess: u64,
+    idempotent: bool,
+) -> Result<bool> {
+    feed.update(price, max_future_excess, idempotent)
+}
